@@ -265,8 +265,13 @@ def run(R, env):
                     if ci is not None and ci != 0:
                         how = "constant %d" % ci
                     else:
-                        w = c.assume_bool(lambda x, den=den: x[0] == "call" and x[1] in ("cosmwasm_std::Uint128::is_zero",) and norm(x[2][0]) == norm(den), True).settle()
-                        zt = [1 for _, atom in c.atoms() if atom[0] == "bool" and any(s_[0] == "call" and s_[1] == "cosmwasm_std::Uint128::is_zero" and norm(s_[2][0]) == norm(den) for s_ in subterms(atom[1]))]
+                        zp = lambda x, den=den: x[0] == "call" and x[1] in ("cosmwasm_std::Uint128::is_zero",) and norm(x[2][0]) == norm(den)
+                        w = c.assume_bool(zp, True).settle()
+                        zt = [1 for _, atom in c.atoms() if atom[0] == "bool" and any(zp(s_) for s_ in subterms(atom[1]))]
+                        if not zt:
+                            # the test may live in a predicate helper (`state.has_liquid_stake()`)
+                            from engine.analysis import bool_world_edges as _bwe
+                            zt = [1] * _bwe(c, zp, True)[1]
                         if zt and bi not in w.T.reach:
                             how = "guarded by is_zero()"
                     if how is None and (k, nm.split("::")[-1]) in RATIO_JUSTIFIED:
